@@ -6,11 +6,11 @@ package main
 
 import (
 	"encoding/json"
-	"os"
 	"fmt"
 	"go/ast"
 	"go/parser"
 	"go/token"
+	"os"
 	"path/filepath"
 	"sort"
 	"strings"
